@@ -445,5 +445,6 @@ func init() {
 		})
 		vmLeg(c, c.N(3000, 100000), vmSizes{k: 24, maxSteps: c.N(4000, 20000), maxText: 12, extra: 2}) // leg W: interpreter model vs executeDefault (vm.go)
 		parserLeg(c, 2000, 50000)                                                                      // leg Pr: the parser model (parser.go)
+		plLeg(c, 250, 6000)                                                                            // leg Pl: parse ∘ reduce ∘ emit as one Lean function (pipeline.go)
 	})
 }
